@@ -184,8 +184,8 @@ fn explore_program(prop: &str, idx: usize, e: &Entry, first: Option<usize>, alph
         if !seq.is_empty() {
             t.transitions += 1;
         }
-        if t.samples.is_empty() && seq.len() == 2 && !exp.is_ok() {
-            t.samples.push(json!({"program": e.prog.family, "src": src, "expected_leaves": format!("{:?}", exp.leaves), "observed": format!("{obs:?}")}));
+        if t.samples.is_empty() && seq.len() == 2 {
+            t.samples.push(json!({"program": e.prog.family, "src": src, "expected_value": format!("{:?}", exp.value), "expected_leaves": format!("{:?}", exp.leaves), "observed": format!("{obs:?}").chars().take(600).collect::<String>()}));
         }
     };
     match first {
@@ -341,8 +341,8 @@ fn explore_enum(prop: &str, idx: usize, e: &Entry, maxlen: usize, t: &mut Tally)
             Some(Val::Var(n, _)) => t.class(&format!("variant {n}")),
             _ => {}
         }
-        if t.samples.is_empty() && !exp.is_ok() && items_for_case.len() == 2 {
-            t.samples.push(json!({"program": e.prog.family, "src": src, "expected_leaves": format!("{:?}", exp.leaves), "observed": format!("{obs:?}")}));
+        if t.samples.is_empty() {
+            t.samples.push(json!({"program": e.prog.family, "src": src, "expected_value": format!("{:?}", exp.value), "expected_leaves": format!("{:?}", exp.leaves), "observed": format!("{obs:?}").chars().take(600).collect::<String>()}));
         }
     };
     for f in corpus::enum_root_forms(&e.prog) {
